@@ -489,7 +489,8 @@ def _d5(chk, fb):
             for d in n["decls"]:
                 if d.get("init") is not None and render(d["init"]) in (src, "vector(%s)" % src) or (d.get("init") is not None and src == render(strip(d["init"]))):
                     copy = d
-    erases = [n for n in f.calls() if n["callee"]["name"] == "erase"]
+    # an erase made by the single-position overload counts as an erase at its call site
+    erases = [n for n in f.calls() if n["callee"]["name"] == "erase" or (n["callee"]["name"] == "deleteParameter" and n["callee"].get("cls") == PL)]
     chk.floor("D5", "erase sites", len(erases), 1)
     sorts = [n for n in f.calls() if n["callee"]["qname"] in ("std::sort", "std::stable_sort")]
     if copy is None:
@@ -556,9 +557,26 @@ def _d5(chk, fb):
                 if idx and text in ("(%s < this.size())" % idx, "(%s < size())" % idx) and truth is True:
                     return True
             return False
+        if e["callee"]["name"] == "deleteParameter":
+            # the range test is made by the single-position overload
+            ts = [t for t in fb.targets(e, static_type_only=True) if t.body is not None]
+            inner_ok = False
+            for t in ts:
+                pn_ = t.params[0]["name"] if t.params else None
+                for x in t.calls():
+                    if x["callee"]["name"] == "erase" and pn_:
+                        g_, _ = e1.guarded_by(t.cfg, t.cfg.stmt_block(x), lambda facts, pn_=pn_: any((tt in ("(%s >= this.size())" % pn_, "(%s >= size())" % pn_) and tr is False) or (tt in ("(%s < this.size())" % pn_, "(%s < size())" % pn_) and tr is True) for tt, tr, _ in facts))
+                        inner_ok = inner_ok or g_
+            if inner_ok:
+                chk.proved("D5", f.key, "index-guard", f.loc(e), "the position is range-tested by deleteParameter(size_t) before it erases")
+            else:
+                chk.unknown("D5", f.key, "index-guard", f.loc(e), "erase delegated to %s: its range test was not recognised" % render(e)[:40])
+            continue
         ok, path = e1.guarded_by(cfg, cfg.stmt_block(e), est)
         if ok:
             chk.proved("D5", f.key, "index-guard", f.loc(e), "erase of index '%s' dominated by '%s < size()'" % (idx, idx))
+        elif idx is None:
+            chk.unknown("D5", f.key, "index-guard", f.loc(e), "the erased position is not in a form this rule reads")
         else:
             chk.refuted("D5", f.key, "index-guard", f.loc(e), "erase at begin()+%s without a dominating range test" % idx, witness={"blocks": path})
 
